@@ -51,6 +51,7 @@ func (gt *gossipTracer) AddPromise(p peer.ID, msgIDs []string) {
 	}
 
 	idx := rand.Intn(len(msgIDs))
+	idx = verifPick(idx, len(msgIDs))
 	mid := msgIDs[idx]
 
 	gt.Lock()
